@@ -286,6 +286,60 @@ func init() {
 		},
 	})
 	eng.Register(&eng.Scenario{
+		Name: "ccall-ignore-ctx", Props: []string{"C17"}, MustFinish: true, ObsNames: stdObs,
+		Doc:   "CallConcurrently with a function that ignores its context (it returns only when a gate opens, after the call is over): (a) a sibling returns E1 at once, or (b) the caller's context is cancelled while a sibling has returned nil (choice): the call returns E1 / context.Canceled without waiting for the function that does not listen; that function still runs exactly once and its context is cancelled",
+		Quick: eng.Bounds{PB: 2}, Thorough: eng.Bounds{PB: 3},
+		Body: func() {
+			bg := context.Background()
+			mode := vsched.Choose(2)
+			gS := &vsched.Gate{}
+			ctx, cancel := context.WithCancel(bg)
+			defer cancel()
+			f1 := func(fctx context.Context) error {
+				vsched.CtrAdd(c17Ran, 1)
+				if mode == 0 {
+					return errE1
+				}
+				return nil
+			}
+			f2 := func(fctx context.Context) error {
+				vsched.CtrAdd(c17Ran+4, 1)
+				gS.Wait() // does not look at fctx while the call is in progress
+				if fctx.Err() == nil {
+					fail("C17.ctx-live", "the context given to the straggling function is still live after the call ended")
+				}
+				return nil
+			}
+			T("K", func() {
+				label("CallConcurrently")
+				r := ccall.CallConcurrently(ctx, f1, nil, f2)
+				label("")
+				want := errE1
+				if mode == 1 {
+					want = context.Canceled
+				}
+				if r != want {
+					fail("C17.wrong-error", "CallConcurrently returned %v, want %v (mode %d)", r, want, mode)
+				}
+				if gS.IsOpen() {
+					fail("C17.not-returned", "CallConcurrently returned only after the function that ignores its context was let go")
+				}
+			})
+			if mode == 1 {
+				T("C", func() { vsched.CtrSet(c17Cancel, 1); cancel() })
+			}
+			vsched.Settle()
+			if vsched.CountParked("CallConcurrently") > 0 {
+				fail("C17.not-returned", "a function returned E1 / the caller's context was cancelled (mode %d), but CallConcurrently is still waiting for a function that ignores its context", mode)
+			}
+			gS.Open()
+			vsched.Settle()
+			if a, b := vsched.Ctr(c17Ran), vsched.Ctr(c17Ran+4); a != 1 || b != 1 {
+				fail("C17.ran-count", "functions ran %d and %d times, want 1 and 1", a, b)
+			}
+		},
+	})
+	eng.Register(&eng.Scenario{
 		Name: "ccall-0-1", Props: []string{"C17"}, MustFinish: true, ObsNames: stdObs,
 		Doc:   "CallConcurrently with 0 and 1 functions (every outcome incl. a nil entry), caller-cancel thread",
 		Quick: eng.Bounds{PB: 3}, Thorough: eng.Bounds{PB: 6},
